@@ -143,7 +143,9 @@ def gen_version_atom(rng, cfg):
     roll = rng.random()
     if roll < 0.08 and (name == "python_version" or rng.random() < cfg["p_pfv_lists"]):
         # in / not in lists (python_version mostly; python_full_version in some runs, sharing list texts)
-        others = rng.sample(cfg["bases"], k=min(len(cfg["bases"]), rng.choice(cfg["list_sizes"])))
+        k = rng.choice(cfg["list_sizes"])
+        pool = list(cfg["bases"]) + [b for b in VERSION_BASES if b not in cfg["bases"]][: max(0, k - len(cfg["bases"]))]
+        others = rng.sample(pool, k=min(len(pool), k))
         sep = rng.choice([", ", ", ", ",", " , "])
         long_form = rng.random() < cfg["p_long_pv"]
         value = sep.join(f"{a}.{b}.0" if long_form else f"{a}.{b}" for a, b in others)
@@ -432,7 +434,7 @@ def gen_config(rng, fault_class=None):
         "p_long_pv": rng.choice([0.1, 0.1, 0.5]),
         "p_pfv_lists": rng.choice([0.0, 0.3, 1.0]),
         "p_set_vars": rng.choice([0.0, 0.0, 0.3, 0.7]),
-        "list_sizes": rng.choice([[1, 2, 2, 3], [1, 2, 2, 3], [3, 3, 4]]),
+        "list_sizes": rng.choice([[1, 2, 2, 3], [1, 2, 2, 3], [3, 4, 5]]),
         "p_invalid": rng.choice([0.0, 0.0, 0.3]),
         "p_single": rng.choice([0.25, 0.4, 0.6]),
         "p_nest": rng.choice([0.0, 0.25, 0.5]),
@@ -616,8 +618,9 @@ def saturation_universe(rng, cfg):
         short = [f"{a}.{b}" for a, b in vs]
         longf = [f"{a}.{b}.0" for a, b in vs]
         names = rng.choice([["python_version"], ["python_full_version"], list(VERSION_VARS)])
+        more = [f"{base[0]}.{base[1] + i}" for i in range(3, 5)]
         texts = [", ".join(short), ", ".join(longf), ",".join(reversed(short)), ", ".join(short[:2]), ", ".join(longf[:2]),
-                 ", ".join([short[0], longf[1], short[2]]), short[0]]
+                 ", ".join([short[0], longf[1], short[2]]), short[0], ", ".join(short + more[:1]), ", ".join(short + more)]
         for name in names:
             for t in texts:
                 atoms.append(atom(name, "in", t))
